@@ -18,19 +18,20 @@ type divMonitor struct {
 	created atomic.Bool
 	faulted atomic.Bool
 
-	mu        sync.Mutex
-	allowed   map[uint]bool
-	contract  []string
-	listLens  map[int]int
-	maxDiv    uint
-	prevDiv   uint
-	faultCall int64
-	faultR1   int64
-	faultL    int
-	faultR2   int64
-	faultIn   bool
-	faultDesc string
-	roundDivs int64
+	mu            sync.Mutex
+	allowed       map[uint]bool
+	contract      []string
+	listLens      map[int]int
+	maxDiv        uint
+	prevDiv       uint
+	faultCall     int64
+	faultR1       int64
+	faultL        int
+	faultR2       int64
+	faultIn       bool
+	faultLUnknown bool
+	faultDesc     string
+	roundDivs     int64
 
 	afterFault atomic.Int64
 }
@@ -51,7 +52,23 @@ func (m *divMonitor) allow(p uint, ok bool) {
 
 // divide is the divider handed to the discipline: it checks the calling contract, delegates
 // to the configured divider and, if the scenario says so, corrupts one result.
-func (m *divMonitor) divide(p []uint, q uint, d map[uint]uint) {
+func (m *divMonitor) divide(p []uint, q uint, d map[uint]uint) { m.divideFull(p, q, d, false) }
+
+// divideV1 has the v1 signature: a nil distribution (a share computation, not a round
+// division) is created here, and an empty list yields nil like the v1 dividers do.
+func (m *divMonitor) divideV1(p []uint, q uint, d map[uint]uint) map[uint]uint {
+	wasNil := d == nil
+	if wasNil {
+		d = make(map[uint]uint, len(p))
+	}
+	m.divideFull(p, q, d, wasNil)
+	if len(p) == 0 {
+		return nil
+	}
+	return d
+}
+
+func (m *divMonitor) divideFull(p []uint, q uint, d map[uint]uint, v1NilDist bool) {
 	k := m.calls.Add(1) - 1
 	sc := m.x.sc
 	m.mu.Lock()
@@ -84,7 +101,7 @@ func (m *divMonitor) divide(p []uint, q uint, d map[uint]uint) {
 	m.prevDiv = q
 	m.mu.Unlock()
 
-	roundDivision := d != nil && (sc.isV1() || m.created.Load())
+	roundDivision := d != nil && !v1NilDist && (sc.isV1() || m.created.Load())
 	if roundDivision {
 		m.roundDivs++
 	}
@@ -105,7 +122,7 @@ func (m *divMonitor) divide(p []uint, q uint, d map[uint]uint) {
 			fmt.Sscanf(f.Trigger[8:], "%d", &j)
 			inject = roundDivision && len(p) == j
 		}
-		if sc.isV1() && d == nil {
+		if v1NilDist {
 			inject = false // v1 share computations (nil distribution) are not round divisions
 		}
 	}
@@ -152,6 +169,8 @@ func (m *divMonitor) divide(p []uint, q uint, d map[uint]uint) {
 	m.faultR1 = m.x.recvN.Load()
 	if m.x.sys != nil {
 		m.faultL = m.x.sys.outLen()
+	} else {
+		m.faultLUnknown = true // the scheduler ran before the constructor returned to the harness
 	}
 	m.faultIn = m.x.inRecv.Load()
 	m.faultR2 = m.x.recvN.Load()
@@ -187,6 +206,7 @@ func (x *prioExec) afterFault() {
 	x.pull()
 	m.mu.Lock()
 	r1, l, r2, in := m.faultR1, int64(m.faultL), m.faultR2, m.faultIn
+	lUnknown := m.faultLUnknown
 	desc := m.faultDesc
 	m.mu.Unlock()
 	if !x.errClosed {
@@ -196,7 +216,7 @@ func (x *prioExec) afterFault() {
 	if !x.faultSeen {
 		x.fail("C15", "no-error-reported", "divider fault (%s): the discipline terminated but Err() never yielded ErrDividerBad (values: %v)", desc, x.res.ErrValues)
 	}
-	if !x.sc.simple() {
+	if !x.sc.simple() && !lUnknown {
 		total := int64(x.res.Received)
 		hi := r2 + l
 		if in || r1 != r2 {
